@@ -1,24 +1,24 @@
 (* C06 -- The node's self-description is true of its behaviour: property theorems.
    n ranges over ALL node configurations (any number of modules and accessibles, any datatypes of FV.C01.Model),
    ops over ALL histories of describe / read / change / do / activate requests and driver-side assignments,
-   j / arg over all modelled Python values.  Full statement and what is proved:
+   j / arg over all modelled Python values.  well_configured n = module names distinct (keys of a python dict).
 
-   (lists exactly)   the report lists, in order, exactly the exported modules, and for each of them exactly the wire names of
-                     its exported accessibles (each once), with the wire-name rules of fixExport   -- C06_lists_exactly, C06_wire_name_rules
-                     (a wire name shared by two accessibles gives ONE entry: C06_refuted_collision)
+   (lists exactly)   the report lists, in order, exactly the exported modules, and for each of them the list of its keys IS the
+                     list of wire names of its accessibles (class export overridden by the configured export, module-level
+                     hiding, fixExport rules), which are distinct              -- C06_lists_exactly, C06_wire_name_rules,
+                     C06_duplicate_export_rejected (a shared wire name is a configuration error: no node is built)
    (stable)          no request and no driver assignment changes the report                      -- C06_stable
-   (same datainfo)   a change / do request is accepted or rejected by exactly the datatype the report shows   -- C06_datainfo_same_object_except_cfg_export
-   (flags)           readonly / constant in the report <-> change refused with ReadOnly; constant implies readonly
-                                                                                                  -- C06_flags_predict_except_cfg_export, C06_constant_is_readonly
-                     a constant parameter reads as the described constant: REFUTED for every constant (C06_refuted_constant_read);
-                     proved: what a read answers                                                 -- C06_read_described_partial
+   (same datainfo)   a change / do request is accepted or rejected by exactly the datatype the report shows   -- C06_datainfo_same_object
+   (flags)           readonly / constant in the report <-> change refused with ReadOnly; constant implies readonly;
+                     a constant parameter reads as exactly the described constant
+                                                    -- C06_flags_predict, C06_constant_is_readonly, C06_read_described
    (nothing undescribed) read / change / do / activate of a name the report does not list is refused with NoSuch..., state
-                     unchanged, no update, in every reachable state                              -- C06_nothing_undescribed_except_cfg_export
-                     (without the guard: C06_refuted_undescribed_but_served, C06_refuted_described_but_unreachable)
+                     unchanged, no update, in every reachable state                              -- C06_nothing_undescribed
    (interface class / features) functions of the supplied MRO                                     -- C06_interface_and_features
    (main unit)       after substitution no described unit contains $ when the main unit has none  -- C06_main_unit_substituted
    (strict JSON, emitted values importable) not modelled: checked by the direct oracle on every generated case; the NaN
-                     constant that breaks strict JSON is reproduced by C06_refuted_nan_constant_described                     *)
+                     constant that breaks strict JSON (open finding) is reproduced by C06_refuted_nan_constant_described
+   The former guards (_except_cfg_export, _partial) are gone: the defects were repaired in /repo (8235152, 0f999c0).         *)
 From Coq Require Import ZArith NArith Bool List.
 Import ListNotations.
 Require Import FV.Gen.C06 FV.Base.Util FV.Base.F64 FV.Base.PyVal FV.C01.Model FV.C06.Model FV.C06.Lemmas FV.C06.LemmasBuild
@@ -26,15 +26,16 @@ Require Import FV.Gen.C06 FV.Base.Util FV.Base.F64 FV.Base.PyVal FV.C01.Model FV
 
 Theorem C06_source_facts :
   features_from_direct_feature_bases = true /\ fixexport_shape = true /\
-  add_accessible_hides_and_registers_before_cfg = true /\ finish_reexports_constant = true /\
+  add_accessible_registers_final_export = true /\ finish_reexports_constant = true /\
   main_unit_after_cfg_and_dollar_replace = true /\ export_properties_nondefault_rule = true /\
   property_export_table = true /\ for_export_shapes = true /\ export_accessibles_shape = true /\
   change_path_shape = true /\ read_path_shape = true /\ do_path_shape = true /\ activate_path_shape = true /\
   announce_update_shape = true /\ interface_classes_limit = 1%nat /\ finish_calls_class_constant = 3%nat.
 Proof. repeat split; reflexivity. Qed.
 
-(* lists_module mc e: e is named like mc, its accessible keys are distinct and are exactly the wire names (final export
-   property) of the accessibles of mc, implementation / interface_classes / features are those computed from the class *)
+(* lists_module mc e: e is named like mc, the list of its accessible keys equals the list of wire names of the accessibles of
+   mc (cfg_wires: configured export over class export, fixExport) which has no duplicates, implementation /
+   interface_classes / features are those computed from the class *)
 Theorem C06_lists_exactly : forall n s,
   build n = Ok s -> Forall2 lists_module (filter mc_export n) (describe s).
 Proof. exact lists_exactly. Qed.
@@ -46,10 +47,19 @@ Theorem C06_wire_name_rules : forall attr,
   (is_predefined attr = false -> fix_export attr ExTrue = Some (underscore :: attr)).
 Proof. exact wire_name_rules. Qed.
 
+Theorem C06_wire_of_spec : forall me a,
+  wire_of me a = if me then fix_export (ac_attr a) (match ac_cfg_export a with Some e => e | None => ac_export a end)
+                 else None.
+Proof. exact wire_of_spec. Qed.
+
+Theorem C06_duplicate_export_rejected : forall n mc s,
+  In mc n -> build n = Ok s -> NoDup (cfg_wires (mc_export mc) (mc_accs mc)).
+Proof. exact duplicate_export_rejected. Qed.
+
 Theorem C06_stable : forall E s ops, describe (run E s ops) = describe s.
 Proof. exact stable. Qed.
 
-Theorem C06_nothing_undescribed_except_cfg_export : forall n s0 E ops m w,
+Theorem C06_nothing_undescribed : forall n s0 E ops m w,
   build n = Ok s0 -> well_configured n ->
   let s := run E s0 ops in
   described s m w = None ->
@@ -60,7 +70,7 @@ Theorem C06_nothing_undescribed_except_cfg_export : forall n s0 E ops m w,
   (assoc_str m (describe s) = None -> do_activate s (Some (m, None)) = (s, RpErr RNoMod, [])).
 Proof. exact nothing_undescribed. Qed.
 
-Theorem C06_datainfo_same_object_except_cfg_export : forall n s0 E ops m w,
+Theorem C06_datainfo_same_object : forall n s0 E ops m w,
   build n = Ok s0 -> well_configured n ->
   let s := run E s0 ops in
   (forall g v pd j, described s m w = Some (DP g v pd) -> pd_readonly pd = false -> pd_constant pd = None ->
@@ -75,7 +85,7 @@ Theorem C06_datainfo_same_object_except_cfg_export : forall n s0 E ops m w,
        reply_of (run_cmd E {| c_arg := x; c_res := r; c_ret := ret |} arg >>= fun y => Ok (with_qualifiers y))).
 Proof. exact datainfo_same_object. Qed.
 
-Theorem C06_flags_predict_except_cfg_export : forall n s0 E ops m w g v pd,
+Theorem C06_flags_predict : forall n s0 E ops m w g v pd,
   build n = Ok s0 -> well_configured n ->
   let s := run E s0 ops in
   described s m w = Some (DP g v pd) ->
@@ -88,13 +98,13 @@ Theorem C06_constant_is_readonly : forall n s0 E ops m w g v pd c,
   described (run E s0 ops) m w = Some (DP g v pd) -> pd_constant pd = Some c -> pd_readonly pd = true.
 Proof. exact constant_is_readonly. Qed.
 
-Theorem C06_read_described_partial : forall n s0 E ops m w g v pd,
+Theorem C06_read_described : forall n s0 E ops m w g v pd,
   build n = Ok s0 -> well_configured n ->
   let s := run E s0 ops in
   described s m w = Some (DP g v pd) ->
   (pd_constant pd = None ->
      exists value, do_read s m w = reply_of (dt_export (pd_dt pd) value >>= fun x => Ok (with_qualifiers x))) /\
-  (forall c, pd_constant pd = Some c -> do_read s m w = reply_of (dt_export (pd_dt pd) c >>= py_list)).
+  (forall c, pd_constant pd = Some c -> do_read s m w = RpData (with_qualifiers c)).
 Proof. exact read_described. Qed.
 
 Theorem C06_interface_and_features : forall mro,
@@ -121,43 +131,26 @@ Proof.
   - intros X. destruct mu; auto. apply replace_dollar_id; auto.
 Qed.
 
-(* genuine defects of the pinned code (Refuted.v) *)
-Theorem C06_refuted_constant_read :
-  exists n m w c,
-    built n = true /\ consistent (state_of n) /\
-    opt_eqb pv_same (desc_constant (described (state_of n) m w)) (Some c) = true /\
-    do_read (state_of n) m w <> RpData (with_qualifiers c) /\ rerr_is (do_read (state_of n) m w) (RExc EType) = true.
-Proof. exact refuted_constant_read. Qed.
-
-Theorem C06_refuted_undescribed_but_served :
-  exists n m w,
-    built n = true /\ described (state_of n) m w = None /\
-    is_data (do_read (state_of n) m w) = true /\
-    is_data (reply3 (do_change E0 (state_of n) m w (PInt 7))) = true /\
-    reply3 (do_activate (state_of n) (Some (m, Some w))) = RpActive /\
-    s_subs (state3 (do_activate (state_of n) (Some (m, Some w)))) = [(m, Some w)] /\
-    map (fun u => (u_mod u, u_wire u)) (upds3 (do_activate (state_of n) (Some (m, Some w)))) = [(m, None)].
-Proof. exact refuted_undescribed_but_served. Qed.
-
-Theorem C06_refuted_described_but_unreachable :
-  exists n m w,
-    built n = true /\ is_some (described (state_of n) m w) = true /\
-    do_read (state_of n) m w = RpErr RNoPar /\
-    (forall j, reply3 (do_change E0 (state_of n) m w j) = RpErr RNoPar).
-Proof. exact refuted_described_but_unreachable. Qed.
-
-Theorem C06_refuted_collision :
-  exists n,
-    built n = true /\
-    map (fun e => (fst e, length (md_accs (snd e)))) (describe (state_of n)) = [(s_m, 1%nat)] /\
-    map (fun mc => length (filter (fun a => is_some (wire_of true a)) (mc_accs mc))) n = [2%nat] /\
-    map (fun u => (u_mod u, u_wire u, body_kind (u_body u))) (upds3 (do_activate (state_of n) (Some (s_m, None)))) =
-      [(s_m, Some s_ufoo, 1%nat); (s_m, Some s_ufoo, 2%nat)].
-Proof. exact refuted_collision. Qed.
-
+(* genuine defect of the pinned code still open (Refuted.v) *)
 Theorem C06_refuted_nan_constant_described :
   built n_nan = true /\ desc_constant (described (state_of n_nan) s_m s_ufoo) = Some (PFloat fnan).
 Proof. exact refuted_nan_constant_described. Qed.
+
+(* regression examples: the configurations that witnessed the repaired defects now behave as the property demands *)
+Example C06_repaired_constant_read :
+  built n_const = true /\
+  reply_eq_data (do_read (state_of n_const) s_m s_ufoo) (with_qualifiers (PFloat two_half)) = true.
+Proof. split; vm_compute; reflexivity. Qed.
+Example C06_repaired_cfg_export :
+  built n_hidden = true /\ described (state_of n_hidden) s_m s_ufoo = None /\
+  rerr_is (do_read (state_of n_hidden) s_m s_ufoo) RNoPar = true /\
+  rerr_is (reply3 (do_activate (state_of n_hidden) (Some (s_m, Some s_ufoo)))) RNoPar = true /\
+  built n_renamed = true /\ is_some (described (state_of n_renamed) s_m s_baz) = true /\
+  is_data (do_read (state_of n_renamed) s_m s_baz) = true /\
+  rerr_is (do_read (state_of n_renamed) s_m [95; 98; 97; 114]%N) RNoPar = true.
+Proof. repeat split; vm_compute; reflexivity. Qed.
+Example C06_repaired_collision : built n_collision = false.
+Proof. vm_compute; reflexivity. Qed.
 
 (* non-vacuity: a well configured node in which a described writable parameter accepts and rejects payloads *)
 Definition demo : list mcfg :=
@@ -165,9 +158,7 @@ Definition demo : list mcfg :=
            mk_par s_bar dbl (ExName s_baz) None true None (Some (PInt 1))]].
 Example C06_demo_well_configured : built demo = true /\ well_configured demo.
 Proof.
-  split; [vm_compute; reflexivity|]. split.
-  - repeat constructor. simpl. tauto.
-  - apply no_cfg_export_settled. intros mc a [<-|[]] [<-|[<-|[]]]; reflexivity.
+  split; [vm_compute; reflexivity|]. repeat constructor. simpl. tauto.
 Qed.
 Example C06_demo_run :
   is_data (reply3 (do_change E0 (state_of demo) s_m s_ufoo (PInt 7))) = true /\
@@ -180,16 +171,14 @@ Proof. repeat split; vm_compute; reflexivity. Qed.
 Print Assumptions C06_source_facts.
 Print Assumptions C06_lists_exactly.
 Print Assumptions C06_wire_name_rules.
+Print Assumptions C06_wire_of_spec.
+Print Assumptions C06_duplicate_export_rejected.
 Print Assumptions C06_stable.
-Print Assumptions C06_nothing_undescribed_except_cfg_export.
-Print Assumptions C06_datainfo_same_object_except_cfg_export.
-Print Assumptions C06_flags_predict_except_cfg_export.
+Print Assumptions C06_nothing_undescribed.
+Print Assumptions C06_datainfo_same_object.
+Print Assumptions C06_flags_predict.
 Print Assumptions C06_constant_is_readonly.
-Print Assumptions C06_read_described_partial.
+Print Assumptions C06_read_described.
 Print Assumptions C06_interface_and_features.
 Print Assumptions C06_main_unit_substituted.
-Print Assumptions C06_refuted_constant_read.
-Print Assumptions C06_refuted_undescribed_but_served.
-Print Assumptions C06_refuted_described_but_unreachable.
-Print Assumptions C06_refuted_collision.
 Print Assumptions C06_refuted_nan_constant_described.
